@@ -38,6 +38,19 @@ static std::string wording(int code, const std::string &text) {
     if (n == "LPART_TOO_LONG" && !ci_has(text, "too long")) return "message lacks 'too long'";
     if (n == "TLD_INVALID" && !ci_has(text, "invalid tld")) return "message lacks 'invalid TLD'";
     if (n == "INVALID_RFC" && !ci_has(text, "rfc")) return "message does not mention 'RFC'";
+    // concept word of the condition the code names (any of a few synonyms, so that a rewording does not alarm; a swap of two
+    // table rows that name different concepts does)
+    static const struct { const char *name; const char *alts[5]; } CONCEPT[] = {
+        {"EMAIL_EMPTY", {"empty", nullptr}}, {"LPART_EMPTY", {"empty", nullptr}}, {"LPART_NOT_ASCII", {"ascii", nullptr}}, {"LPART_SPECIAL", {"special", nullptr}},
+        {"LPART_CTRL_CHAR", {"control", "ctrl", nullptr}}, {"LPART_MISPLACED_QUOTE", {"quote", nullptr}}, {"LPART_UNQUOTED", {"quote", nullptr}}, {"LPART_MISPLACED_DOT", {"dot", "period", nullptr}},
+        {"LPART_UNQUOTED_FWS", {"quot", "whitespace", "fws", nullptr}}, {"LPART_INVALID_FOLDING", {"fold", nullptr}}, {"LPART_INVALID_UTF8", {"utf", nullptr}}, {"DOMAIN_EMPTY", {"empty", nullptr}},
+        {"DOMAIN_LABEL_TOO_LONG", {"long", nullptr}}, {"DOMAIN_MISPLACED_HYPHEN", {"hyphen", "dash", nullptr}}, {"DOMAIN_MISPLACED_DELIMITER", {"delimiter", "dot", "separator", nullptr}},
+        {"DOMAIN_INVALID_CHAR", {"char", nullptr}}, {"DOMAIN_TOO_LONG", {"long", nullptr}}, {"DOMAIN_NUMERIC", {"numeric", "digit", nullptr}}, {"DOMAIN_NOT_FQDN", {"fqdn", "qualified", nullptr}},
+        {"IPADDR_BRACKET_UNPAIR", {"bracket", nullptr}}, {"TLD_NOT_ASSIGNED", {"assigned", nullptr}}, {"TLD_COUNTRY_CODE", {"country", nullptr}}, {"TLD_GENERIC", {"generic", nullptr}},
+        {"TLD_GENERIC_RESTRICTED", {"restricted", nullptr}}, {"TLD_INFRASTRUCTURE", {"infrastructure", nullptr}}, {"TLD_SPONSORED", {"sponsored", nullptr}}, {"TLD_TEST", {"test", nullptr}},
+        {"TLD_SPECIAL", {"special", "reserved", nullptr}}, {"TLD_RETIRED", {"retired", nullptr}}};
+    for (auto &c : CONCEPT) if (n == c.name) { bool ok = false; for (int i = 0; c.alts[i]; i++) if (ci_has(text, c.alts[i])) ok = true; if (!ok) return std::string("message does not name the condition of the code (none of: ") + c.alts[0] + " ...)"; }
+    if (n == "TLD_GENERIC" && ci_has(text, "restricted")) return "the message of the generic class says 'restricted'";
     return "";
 }
 static std::optional<Failure> note_text(int code, const std::string &text, const std::string &cs) {
